@@ -1,7 +1,7 @@
 """C09 — requests are the protocol's, go to the right port, and echo challenges."""
 import random
 import vlib, netcases
-from props import netprops, httpplan
+from props import netprops, httpplan, sockplan
 
 LEVEL = "proof"
 RULE = ("valid SPEC-generated exchanges with 0-3 challenge rounds per request and stratified challenge values (every byte "
@@ -24,7 +24,8 @@ def run(rep, tier, seed, replay=None):
     if replay is not None:
         for o in httpplan.run(rep, [l for l in replay if httpplan.is_http(l)], "c09hp"):
             httpplan.c09_oracle(rep, o)
-        replay = [l for l in replay if not httpplan.is_http(l)]
+        sockplan.run(rep, [l for l in replay if sockplan.is_sock(l)], "c09sk", oracles=(sockplan.c09_failures,), count="sock-destination")
+        replay = [l for l in replay if not httpplan.is_http(l) and not sockplan.is_sock(l)]
         if replay:
             vlib.correspond(rep, replay, oracle=netprops.crash_oracle, trivial=netprops.trivial, tag="c09")
         return
@@ -53,7 +54,11 @@ def run(rep, tier, seed, replay=None):
             out.append(("request-port:" + v.fam, f"a request went to a port other than {port}: {[p for (_, p, _, _) in sends]}"))
         return out
 
-    vlib.correspond(rep, [l for l in netprops.corpus("C09") if not httpplan.is_http(l)] + [v.line for v in valids], oracle=oracle, trivial=netprops.trivial, tag="c09")
+    # socket.rs inside the model: what UdpSocketImpl / TcpSocketImpl emit arrives at the peer's address and port and nowhere else
+    # (decoys: the same address on another port, another loopback address on the same port), unmodified, for 127.0.0.1 / ::1 / ::ffff:127.0.0.1
+    sockplan.run(rep, sockplan.gen_c09(tier) + [l for l in netprops.corpus("C09") if sockplan.is_sock(l)], "c09sk",
+                 oracles=(sockplan.c09_failures,), count="sock-destination")
+    vlib.correspond(rep, [l for l in netprops.corpus("C09") if not httpplan.is_http(l) and not sockplan.is_sock(l)] + [v.line for v in valids], oracle=oracle, trivial=netprops.trivial, tag="c09")
     # ---- the same exchanges through the definition-driven generic query (games::query): with the port omitted every
     # request goes to the game's default port from the definitions table, with a port given to that port — the variants of an
     # auto-detecting game included; same request bytes as on the protocol's own entry
